@@ -27,6 +27,56 @@ def _hook(event, args):
 
 sys.addaudithook(_hook)
 
+# ----------------------------------------------------------------------------- fault injection on open()
+# The name `open` of the two modules that open served files is replaced (in this process only) by a wrapper that
+# can make ONE open of ONE path fail with a given errno, or change the file system at that very moment (the target
+# becomes a directory / its parent becomes a regular file between whatever the code checked before and the open).
+import vinegar.request_handler.file as _F_MOD      # noqa: E402
+import vinegar.template.jinja as _J_MOD            # noqa: E402
+
+_FAULT = {"armed": None, "fired": False}
+ERRNO_FAULTS = {"EACCES": errno.EACCES, "EIO": errno.EIO, "ELOOP": errno.ELOOP}
+_builtin_open = open
+
+
+def _swap(path, kind):
+    if kind == "swapdir":                        # the file is replaced by a directory
+        if os.path.isdir(path):
+            return
+        if os.path.lexists(path):
+            os.remove(path)
+        os.makedirs(path)
+    else:                                        # swapparent: the parent directory is replaced by a regular file
+        parent = os.path.dirname(path)
+        if os.path.isdir(parent):
+            shutil.rmtree(parent)
+        elif os.path.lexists(parent):
+            return
+        with _builtin_open(parent, "wb") as f:
+            f.write(b"now a regular file\n")
+
+
+def _faulty_open(file, *args, **kwargs):
+    f = _FAULT["armed"]
+    if f is not None and isinstance(file, (str, bytes)) and os.path.abspath(os.fsdecode(file)) == f["path"]:
+        _FAULT["armed"] = None
+        _FAULT["fired"] = True
+        if f["kind"] in ERRNO_FAULTS:
+            if _REC["on"]:
+                _REC["paths"].append(os.fsdecode(file))       # the attempt counts as an access
+            e = ERRNO_FAULTS[f["kind"]]
+            raise OSError(e, os.strerror(e), os.fsdecode(file))
+        was_on, _REC["on"] = _REC["on"], False      # the harness's own file operations are not the handler's
+        try:
+            _swap(f["path"], f["kind"])
+        finally:
+            _REC["on"] = was_on
+    return _builtin_open(file, *args, **kwargs)
+
+
+_F_MOD.open = _faulty_open
+_J_MOD.open = _faulty_open
+
 ALPHABET = ["/", ".", "..", "a", "f.txt", "%2e", "%2f", "%2F", "%5c", "\\", "%00", "\0", "%c0%af", "%ff", "?x", "//",
             "%25", "secret.txt", "root-evil", "%41", "sub", "%3f", "%3F", "%ef%bc%8f"]
 
@@ -51,6 +101,13 @@ TREE = {
     "root/%2e%2e": "root/%2e%2e literal\n",
     "root/f.txt?x": "root/f.txt?x (named by f.txt%3fx)\n",
     "root/a?": "root/a? (named by a%3f)\n",
+    # falsy-but-valid / sentinel-like / non-ASCII names and contents
+    "root/empty": "",
+    "root/empty.j2": "",
+    "root/0": "root/0\n",
+    "root/None": "root/None\n",
+    "root/\xe9": "root/e-acute (named by %c3%a9 and by the raw character)\n",
+    "root/\xe9.j2": "root/e-acute.j2\n",
 }
 
 HIST_OPS = ["R", "G", "A", "D", "W1", "W2"]
@@ -61,7 +118,7 @@ class HistObs(list):
     """observations of the request steps of one history"""
 
 
-KIND = {"file": 0, "ENOENT": 1, "EISDIR": 2, "ENOTDIR": 3, "ENAMETOOLONG": 4, "EACCES": 5, "OTHER": 6}
+KIND = {"file": 0, "ENOENT": 1, "EISDIR": 2, "ENOTDIR": 3, "ENAMETOOLONG": 4, "EACCES": 5, "OTHER": 6, "EACCES_DIR": 7}
 
 
 def probe(path):
@@ -108,7 +165,7 @@ def all_configs():
             out.append(mkcfg("/", False, template, suffix))
         out.append(mkcfg("/p", False, template, ""))
         out.append(mkcfg("/p/...", False, template, ".j2", key=":system_id:"))
-        out.append(mkcfg("/x-.../q", False, template, "", key=":system_id:"))
+        out.append(mkcfg("/x-...-y/q", False, template, "", key=":system_id:"))
         out.append(mkcfg("/p", True, template))
         out.append(mkcfg("/p/...", True, template, key=":system_id:"))
         out.append(mkcfg("/", True, template))
@@ -203,6 +260,33 @@ class C04(Check):
             ops = ["R"] + [rng.choice(HIST_OPS) for _ in range(rng.randrange(4, 10))]
             yield {"tftp": bool(rng.randrange(2)), "cfg": mkcfg("/", False, True, "") | {"target": "hroot"}, "uri": "/f.txt",
                    "hist": ops}
+        # (A)+(B): faults injected into open() and external changes, on handlers that open their file on every request
+        # (no template engine; template engine with the cache disabled), three ways of naming the file
+        variants = [
+            (mkcfg("/", False, False, ""), "d/f.txt", "/d/f.txt"),
+            (mkcfg("/", False, True, ""), "d/f.txt", "/d/f.txt"),
+            (mkcfg("/p", False, False, ".j2"), "d/f.txt.j2", "/p/d/f.txt"),
+            (mkcfg("/p", True, False), "d/f.txt", "/p"),
+            (mkcfg("/p", True, True), "d/f.txt", "/p"),
+        ]
+        faults = ["EACCES", "EIO", "ELOOP", "swapdir", "swapparent"]
+        toks = [["R"], ["A"], ["D"], ["W1"]] + [["X:" + f, "R"] for f in faults]
+        for vi, (vcfg, hfile, ruri) in enumerate(variants):
+            vcfg = dict(vcfg, target="hroot/" + hfile if vcfg["filemode"] else "hroot")
+            depth = (3 if vi == 0 else 2) if tier == "quick" else 3
+            k = 0
+            for n in range(1, depth + 1):
+                for seq in itertools.product(toks, repeat=n):
+                    ops = [o for t in seq for o in t]
+                    if "R" not in ops or not any(o.startswith("X:") or o in "AD" for o in ops):
+                        continue
+                    k += 1
+                    yield {"tftp": bool(k % 2), "cfg": vcfg, "uri": ruri, "hist": ops + ["R"], "hfile": hfile,
+                           "cache": False}
+            for _ in range(40 if tier == "quick" else 400):
+                seq = [rng.choice(toks) for _ in range(rng.randrange(3, 7))]
+                yield {"tftp": bool(rng.randrange(2)), "cfg": vcfg, "uri": ruri, "hist": [o for t in seq for o in t] + ["R"],
+                       "hfile": hfile, "cache": False}
         for ci, cfg in enumerate(cfgs):
             main = (cfg["rpath"] == "/" and not cfg["filemode"] and cfg.get("target_raw") is None)
             n = n_all if (main and not cfg["suffix"] and (tier == "quick" or not cfg["template"])) else n_all - 1
@@ -219,7 +303,15 @@ class C04(Check):
                 seen = set()
                 # witnesses of the known failure modes first (ENOTDIR, EISDIR, ENAMETOOLONG, traversal)
                 for pre in prefixes(cfg):
-                    for u in (pre, pre + "/f.txt", pre + "/nope", pre + "/sub/nope", pre + "/sub", pre + "/a/f.txt/a/a",
+                    for u in (pre + "/empty", pre + "/0", pre + "/None", pre + "/False", pre + "/%c3%a9", pre + "/\xe9",
+                              pre + "/%e9", pre + "/%C3%A9?x", pre + "/a/%c3%a9",
+                              # requests that do not match: shorter than the prefix, other segment, empty value ...
+                              "", "x", "/", pre[:-1], pre + "x", pre.rsplit("/", 1)[0], pre.rsplit("/", 1)[0] + "/",
+                              cfg["rpath"].replace("...", ""), cfg["rpath"].replace("...", "") + "/f.txt",
+                              cfg["rpath"].replace("...", "v").replace("x-", "y-") + "/f.txt",
+                              cfg["rpath"].replace("...", "v").replace("/q", "") + "/f.txt",
+                              cfg["rpath"].replace("...", "v").replace("/q", "/z") + "/f.txt",
+                              pre, pre + "/f.txt", pre + "/nope", pre + "/sub/nope", pre + "/sub", pre + "/a/f.txt/a/a",
                               pre + "/f.txt/a", pre + "/a/f.txt/..", pre + "/a", pre + "/a/", pre + "/../secret.txt",
                               pre + "/%2e%2e/secret.txt", pre + "/..%2fsecret.txt", pre + "/../root-evil/f.txt",
                               pre + "/a/../f.txt", pre + "/%2541", pre + "/f.txt%00", pre + "/a\\f.txt", pre + "/..a",
@@ -242,7 +334,7 @@ class C04(Check):
                                 seen.add(u)
                                 yield {"tftp": tftp, "cfg": cfg, "uri": u}
                     # random longer requests and over-long segments
-                    for _ in range(150 if tier == "quick" else 500):
+                    for _ in range(150 if tier == "quick" else 300):
                         k = rng.randrange(n + 1, n + 6)
                         u = pre + "".join(rng.choice(ALPHABET) if rng.random() < 0.85 else
                                           rng.choice(["%%%02x" % rng.randrange(256), chr(rng.randrange(1, 256)),
@@ -291,7 +383,9 @@ class C04(Check):
         if isinstance(obs, HistObs):
             # with the cache, whether a request opens its file depends on the history: the opened paths are judged
             # (confined) but not compared
-            return [deep_sxstr([o[0], o[1], [], o[3], o[4]]) for o in obs]
+            if getattr(obs, "cached", True):
+                return [deep_sxstr([o[0], o[1], [], o[3], o[4]]) for o in obs]
+            return [deep_sxstr(list(o)) for o in obs]
         return deep_sxstr(obs)
 
     def evaluate(self, cases):
@@ -306,9 +400,10 @@ class C04(Check):
             for (i, c), o, ln, res in zip(plain, obs, lines, outs):
                 r = self.parse_out(ln, res)
                 out[i] = (c, o, r[0], names(r[1]), names(r[2]), r[3:])
-        for i, c in enumerate(cases):
-            if "hist" in c:
-                out[i] = self.eval_history(c)
+        hist = [(i, c) for i, c in enumerate(cases) if "hist" in c]
+        if hist:
+            for (i, _), r in zip(hist, self.eval_histories([c for _, c in hist])):
+                out[i] = r
         return out
 
     def paths_of(self, ans, c):
@@ -322,21 +417,36 @@ class C04(Check):
             table = self.probe_table(wanted, o)
         return sx([1] + self.cfgline(c) + [table, deep_sxstr(list(o))])
 
-    def probe_table(self, wanted, o):
+    def probe_table(self, wanted, o, injected=None):
+        """injected = (path, kind): open(path) was made to fail with that errno for this request"""
         paths = list(wanted)
         for p in o[2]:
             if p not in paths:
                 paths.append(p)
-        return [[sxstr(p)] + probe(p) for p in paths]
+        rows = []
+        for p in paths:
+            if injected is not None and os.path.abspath(p) == injected[0]:
+                k = injected[1]
+                if k == "EACCES":
+                    rows.append([sxstr(p), KIND["EACCES_DIR"] if os.path.isdir(p) else KIND["EACCES"], b""])
+                else:
+                    rows.append([sxstr(p), KIND["OTHER"], b""])
+            else:
+                rows.append([sxstr(p)] + probe(p))
+        return rows
 
     def parse_out(self, ln, res):
         if res.startswith("!") or res.startswith("#"):
             raise RuntimeError(f"{self.ident}: driver rejected case {ln[:300]} -> {res[:100]}")
         return unsx(res)
 
-    # ---- histories on one long-lived handler with the template cache enabled (the default)
+    # ---- histories on one long-lived handler: requests interleaved with changes of the served file and with
+    #      faults injected into the next open()
     def set_state(self, rel, state):
         p = os.path.join(fileh.base_dir(), rel)
+        parent = os.path.dirname(p)
+        if os.path.lexists(parent) and not os.path.isdir(parent):
+            os.remove(parent)                     # a swapped parent becomes a directory again
         if os.path.isdir(p) and not os.path.islink(p):
             shutil.rmtree(p)
         elif os.path.lexists(p):
@@ -346,43 +456,89 @@ class C04(Check):
         elif state is not None:
             fileh.write_file(rel, state)
 
-    def eval_history(self, c):
+    def eval_histories(self, cs):
+        """three phases so that the driver is started three times per batch, not per history"""
+        # 1. which paths does the model want the oracle for (depends on configuration and request only)
+        qlines, subs_all = [], []
+        for c in cs:
+            cached = bool(c["cfg"]["template"] and c.get("cache", True))
+            subs = {"R": dict(c, uri=c["uri"], cached=cached), "G": dict(c, uri="/g.txt", cached=cached)}
+            subs_all.append((subs, cached))
+            qlines.extend(sx([0] + self.cfgline(subs[op])) for op in ("R", "G"))
+        q = run_model(self.ident, qlines)
+        # 2. run every history against the real handler, asking the file-system oracle after each request
+        all_steps = []
+        for k, c in enumerate(cs):
+            subs, cached = subs_all[k]
+            wanted = {"R": self.paths_of(q[2 * k], subs["R"]), "G": self.paths_of(q[2 * k + 1], subs["G"])}
+            all_steps.append(self.run_history(c, subs, wanted))
+        # 3. judge every request step
+        lines = [self.full_line(sc, o, None, tb) for steps in all_steps for sc, o, tb in steps]
+        outs = run_model(self.ident, lines) if lines else []
+        res, pos = [], 0
+        for k, c in enumerate(cs):
+            steps = all_steps[k]
+            m, fm, fi = [], [], []
+            for ln, r in zip(lines[pos:pos + len(steps)], outs[pos:pos + len(steps)]):
+                r = self.parse_out(ln, r)
+                m.append(r[0])
+                fm.extend(x for x in names(r[1]) if x not in fm)
+                fi.extend(x for x in names(r[2]) if x not in fi)
+            pos += len(steps)
+            ho = HistObs(o for _, o, _ in steps)
+            ho.cached = subs_all[k][1]
+            res.append((c, ho, m, fm, fi, []))
+        return res
+
+    def run_history(self, c, subs, wanted):
         cfg, tftp = c["cfg"], c["tftp"]
-        uris = {"R": "/f.txt", "G": "/g.txt"}
-        subs = {op: dict(c, uri=u, cached=True) for op, u in uris.items()}
-        q = run_model(self.ident, [sx([0] + self.cfgline(subs[op])) for op in ("R", "G")])
-        wanted = {op: self.paths_of(ans, subs[op]) for op, ans in zip(("R", "G"), q)}
+        hfile = c.get("hfile", "f.txt")                        # the file the history plays with, below hroot/
+        uris = {"R": c["uri"], "G": "/g.txt"}
         # fresh tree and fresh handler for every history
-        shutil.rmtree(os.path.join(fileh.base_dir(), cfg["target"]), ignore_errors=True)
-        self.set_state(cfg["target"] + "/f.txt", HIST_CONTENT["W0"])
-        self.set_state(cfg["target"] + "/g.txt", "gee\n")
-        h = fileh.build(cfg, tftp, template_cache=True)
+        top = os.path.join(fileh.base_dir(), "hroot")
+        shutil.rmtree(top, ignore_errors=True)
+        frel = "hroot/" + hfile
+        fabs = os.path.join(fileh.base_dir(), frel)
+        self.set_state(frel, HIST_CONTENT["W0"])
+        self.set_state("hroot/g.txt", "gee\n")
+        h = fileh.build(cfg, tftp, template_cache=c.get("cache", True))
         h.set_data_source(RecordingSource({}, []))
         steps = []
-        for op in c["hist"]:
-            if op in uris:
-                o = self.run_request(h, cfg, tftp, uris[op])
-                # the file-system oracle is asked at this moment, before the next change
-                steps.append((subs[op], o, self.probe_table(wanted[op], o)))
-            elif op == "A":
-                self.set_state(cfg["target"] + "/f.txt", None)
-            elif op == "D":
-                self.set_state(cfg["target"] + "/f.txt", "dir")
-            else:
-                self.set_state(cfg["target"] + "/f.txt", HIST_CONTENT[op])
-        lines = [self.full_line(sc, o, None, tb) for sc, o, tb in steps]
-        outs = run_model(self.ident, lines) if lines else []
-        m, fm, fi = [], [], []
-        for ln, res in zip(lines, outs):
-            r = self.parse_out(ln, res)
-            m.append(r[0])
-            fm.extend(x for x in names(r[1]) if x not in fm)
-            fi.extend(x for x in names(r[2]) if x not in fi)
-        return (c, HistObs(o for _, o, _ in steps), m, fm, fi, [])
+        pending = None
+        try:
+            for op in c["hist"]:
+                if op in uris:
+                    injected = None
+                    if pending is not None and op == "R":
+                        # errno faults stand for errors of an object that exists; swaps need a regular file to start from
+                        ok = os.path.lexists(fabs) if pending in ERRNO_FAULTS else os.path.isfile(fabs)
+                        if ok:
+                            _FAULT["armed"] = {"path": fabs, "kind": pending}
+                            _FAULT["fired"] = False
+                            if pending in ERRNO_FAULTS:
+                                injected = (fabs, pending)     # the plan: open(fabs) answers this errno
+                    o = self.run_request(h, cfg, tftp, uris[op])
+                    _FAULT["armed"] = None
+                    _FAULT["fired"] = False
+                    pending = None
+                    # the file-system oracle is asked at this moment, before the next change
+                    steps.append((subs[op], o, self.probe_table(wanted[op], o, injected)))
+                elif op.startswith("X:"):
+                    pending = op[2:]
+                elif op == "A":
+                    self.set_state(frel, None)
+                elif op == "D":
+                    self.set_state(frel, "dir")
+                else:
+                    self.set_state(frel, HIST_CONTENT[op])
+        finally:
+            _FAULT["armed"] = None
+        return steps
 
     def nontrivial(self, c, obs):
         if "hist" in c:
-            return ("hist", c["tftp"], tuple(c["hist"])) if any(op in "ADW1W2" for op in c["hist"]) else None
+            return (("hist", c["tftp"], c["cfg"]["template"], c.get("cache", True), c["uri"], tuple(c["hist"]))
+                    if any(op != "R" and op != "G" for op in c["hist"]) else None)
         u = c["uri"]
         if obs[1] and not c["cfg"]["filemode"] and (obs[3] != 3 or any(t in u for t in ("%", "..", "\\", "\0", "//", "/./"))):
             return (json.dumps(c["cfg"], sort_keys=True), c["tftp"], u)
@@ -391,8 +547,11 @@ class C04(Check):
     def show(self, c):
         if "hist" in c:
             return {"tftp": c["tftp"], "cfg": c["cfg"], "uri": "history " + " ".join(c["hist"]), "hist": c["hist"],
-                    "legend": "R/G = request /f.txt, /g.txt; A = remove f.txt; D = replace it by a directory; "
-                              "W1/W2 = rewrite it; one handler, template cache enabled"}
+                    "hfile": c.get("hfile", "f.txt"), "cache": c.get("cache", True),
+                    "legend": "one handler; R = request c.uri (serves hroot/<hfile>), G = request /g.txt; A = remove the "
+                              "file; D = replace it by a directory; W1/W2 = rewrite it; X:<k> = the next R's open() of the "
+                              "file fails with errno k (EACCES/EIO/ELOOP) or, at that moment, the file becomes a "
+                              "directory (swapdir) / its parent becomes a regular file (swapparent)"}
         return {"tftp": c["tftp"], "cfg": c["cfg"], "uri": c["uri"], "uri_hex": c["uri"].encode("latin-1").hex()}
 
     def shrink(self, c):
